@@ -166,7 +166,13 @@ def impl(case):
             w = np.array(a[6], dtype=np.float64) if a[6] else None
             st, v = call_impl(arithmetics.moving_average, data, w, a[4][0], arr, main, so, float(a[7][0]))
         else:
-            st, v = call_impl(arithmetics.moving_median, data, a[4][0], arr, main, so, float(a[7][0]))
+            # integer fields too (defect fixed after e2e8ecf: nodata entries became INT_MIN inside the median); a half-integer
+            # median is truncated when it is stored into an integer field
+            if (sum(a[5]) + len(a[5])) % 3 == 0:
+                data = data.astype([np.int32, np.int64][len(a[5]) % 2])
+            st, v = call_impl(arithmetics.moving_median, data, a[4][0], arr, main, so, a[7][0] if data.dtype.kind == "i" else float(a[7][0]))
+            if st == "ok" and data.dtype.kind == "i":
+                return [_oq(v, a[7][0]), ["int"]]
         return [_oq(v, a[7][0])] if st == "ok" else [[-2], [st]]
     if k == 1410:
         api = case["call"]["api"]
@@ -217,10 +223,12 @@ def compare(case, i, m):
     if k in (1404, 1405, 1410) and i and i[0] not in ([-2], [-3], [-4]) and m and len(m[0]) == len(i[0]):
         # the model's exact rational, correctly rounded, must equal the implementation's float
         iv, mv = i[0], m[0]
+        trunc = len(i) > 1 and i[1] == ["int"]          # integer field: the stored median is truncated toward zero
         for j in range(0, len(mv), 3):
             if iv[j] != mv[j]:
                 return False
-            if mv[j] == 1 and float(Fraction(mv[j + 1], mv[j + 2])) != float(Fraction(iv[j + 1], iv[j + 2])):
+            want = float(Fraction(mv[j + 1], mv[j + 2])) if mv[j] == 1 else 0.0
+            if mv[j] == 1 and (float(int(want)) if trunc else want) != float(Fraction(iv[j + 1], iv[j + 2])):
                 return False
         return True
     return i == m
@@ -329,8 +337,10 @@ def oracle(case, out):
                 ws = [(w[j] if w else 1) for j in win]
                 q = Fraction(sum(wi * data[j] for wi, j in zip(ws, win)), sum(ws))
             f = Fraction(float(q))
+            if len(out) > 1 and out[1] == ["int"]:
+                f = Fraction(int(float(q)))          # integer field: the stored median is truncated toward zero
             exp += [1, f.numerator, f.denominator]
-        return None if out == [exp] else (f"moving:{'median' if median else 'average'}", f"expected {exp} got {out}")
+        return None if out[:1] == [exp] else (f"moving:{'median' if median else 'average'}", f"expected {exp} got {out}")
     if k in (1406, 1411):
         mask = a[3] if a[2][0] else [0] * n
         exp = []
